@@ -3,11 +3,11 @@ package main
 // Property-specific checks that are not plain lock-step runs.
 
 import (
-	"io"
 	"bytes"
 	"encoding/hex"
 	"encoding/json"
 	"fmt"
+	"io"
 	"os"
 	"path/filepath"
 	"sort"
